@@ -136,6 +136,13 @@ def _kill_group(p):
         pass
 
 
+def _kill_group_only(p):
+    try:
+        os.killpg(p.pid, signal.SIGKILL)
+    except (ProcessLookupError, PermissionError):
+        pass
+
+
 def run_shards(prop, specs, shard_timeout, max_parallel=None, env_extra=None):
     """
     Runs every spec in its own python subprocess (own session, output to files, killed as a
@@ -171,6 +178,14 @@ def run_shards(prop, specs, shard_timeout, max_parallel=None, env_extra=None):
             time.sleep(0.05)
             for i in list(running):
                 p, t0, spec, op, lp = running[i]
+                try:
+                    # peek without reaping: the shard's pid is the id of its process group and must not be recycled
+                    # before the group has been killed
+                    exited = os.waitid(os.P_PID, p.pid, os.WEXITED | os.WNOWAIT | os.WNOHANG)
+                except ChildProcessError:
+                    exited = True
+                if exited:
+                    _kill_group_only(p)
                 rc = p.poll()
                 if rc is None and time.monotonic() - t0 < shard_timeout:
                     continue
